@@ -330,6 +330,8 @@ def strat_diffusion(ctx):
 
 RULE = RULE + " " + ('Since seeded round 4 one third of the runs use a drawn units system for the script (11 space x 10 time x 10 amount units; totals are then compared to 1e-9 x sum of magnitudes because reported amounts are converted floats), and one run in four re-uses an engine object that has just simulated another network on the same species and space (a first-order sink of the first species) before the measured run.')
 
+RULE = RULE + " " + ('Since seeded round 5 facet coarse_steps: 1-3 explicit Euler steps that are 300 .. 3e5 times coarser than the tame step (amounts overshoot below zero): the step is linear in the fluxes, so every law still holds to 1e-9 x sum of magnitudes (the property quantifies over all time steps).')
+
 FACETS = [
     Facet("laws", check_laws, strategy=strat_laws, examples=(1800, 40000), shards=(12, 16), setup=sim.setup_plain),
     Facet("laws_around_chemostat", check_laws, strategy=strat_around, examples=(900, 16000), shards=(8, 16), setup=sim.setup_plain),
